@@ -23,11 +23,13 @@ import (
 
 // inputSpec describes a (possibly multi-page) input compactly.
 type inputSpec struct {
-	Lines   int   `json:"lines"`
-	ErrAt   []int `json:"err_at"`   // lines carrying a syntax error
-	LexAt   int   `json:"lex_at"`   // line carrying a lexical failure, -1 = none
-	Wide    bool  `json:"wide"`     // long lines (fewer lines per page)
-	NoFinal bool  `json:"no_final"` // no newline at the very end
+	Lines   int    `json:"lines"`
+	ErrAt   []int  `json:"err_at"`          // lines carrying a syntax error
+	LexAt   int    `json:"lex_at"`          // line carrying a lexical failure, -1 = none
+	Wide    bool   `json:"wide"`            // long lines (fewer lines per page)
+	NoFinal bool   `json:"no_final"`        // no newline at the very end
+	Multi   bool   `json:"multi,omitempty"` // the padding comments consist of two-byte characters (reads split them)
+	Tail    string `json:"tail,omitempty"`  // appended after the last line: the input may end inside a multi-byte character
 }
 
 func (s inputSpec) source() string {
@@ -40,6 +42,9 @@ func (s inputSpec) source() string {
 		pad := ""
 		if s.Wide {
 			pad = " # " + strings.Repeat("w", 90)
+			if s.Multi {
+				pad = " # " + strings.Repeat("\u00e9", 45)
+			}
 		}
 		switch {
 		case i == s.LexAt:
@@ -54,7 +59,7 @@ func (s inputSpec) source() string {
 	if s.NoFinal && len(out) > 0 {
 		out = out[:len(out)-1]
 	}
-	return out
+	return out + s.Tail
 }
 
 // action of a callback: how it perturbs the schedule
@@ -407,6 +412,13 @@ func genC11(t *rapid.T) caseC11 {
 			}
 		}
 	}
+	in.Multi = in.Wide && gen.Chance(t, 30, "multi")
+	if gen.Chance(t, 15, "tail") {
+		// the input ends inside a multi-byte character (in a comment: still a
+		// valid program; at toplevel or in a string: a late lexical failure),
+		// or just after a complete one
+		in.Tail = gen.Pick(t, "tailkind", []string{"# caf\xc3", "#\xe2\x82", "\xf0\x9f\x98", "print \"\xc3", "\xc3", "# \u00e9", "print \"\u00e9\"", "\xe2"})
+	}
 	c.Input = in
 	size := len(in.source())
 	// reader script
@@ -426,7 +438,7 @@ func genC11(t *rapid.T) caseC11 {
 	if gen.Chance(t, 6, "zerorun") {
 		// a long run of consecutive zero-byte reads somewhere
 		at := gen.Int(t, 0, len(c.Script), "zerorunat")
-		run := make([]readStep, gen.Int(t, 18, 40, "zerorunlen"))
+		run := make([]readStep, gen.Pick(t, "zerorunlen", []int{18, 25, 40, 99, 100, 101, 128, 300}))
 		c.Script = append(c.Script[:at:at], append(run, c.Script[at:]...)...)
 	}
 	switch gen.Weighted(t, "ending", 45, 25, 15, 15) {
